@@ -232,6 +232,9 @@ func (w *World) callbacks() gkvlite.StoreCallbacks {
 		cb.KeyCompareForCollection = func(name string) gkvlite.KeyCompare {
 			for i := len(w.M.Flushed) - 1; i >= 0; i-- {
 				if c, ok := w.M.Flushed[i].Colls[name]; ok {
+					if orderOf(c.Cmp) == "bytes" {
+						return nil // "use the default", as the API documents
+					}
 					return Cmps[orderOf(c.Cmp)]
 				}
 			}
